@@ -43,7 +43,7 @@ func WarpTargetFullType(targetType string) (string, string) {
 
 	if pureTargetType != "" {
 		for _, imp := range imports {
-			if strings.HasSuffix(imp, pureTargetType) {
+			if imp == pureTargetType || strings.HasSuffix(imp, "."+pureTargetType) {
 				callType = "chain"
 				return imp, callType
 			}
